@@ -199,6 +199,8 @@ def hook_always(rng, out):
 
 
 def run(ctx, out):
+    import families, random as _random
+    out.evaluations += families.noninit_tuple_family(out, PROP, _random.Random(ctx['seed']))
     out.rule = ('generated dataclass definitions (field types, defaults / factories, keyword-only marker, aliases / in_names / rename, '
                 'class rename styles, layouts, hooks) x subsets of supplied fields (required always, every subset of the optional ones, '
                 '<= 6 per class) x construction path (constructor by keyword, by position, mapping data, list data, tuple data): same '
